@@ -17,6 +17,8 @@
   soln.resid the mean of their results (the acceptor returns the call indices).
 -/
 import DfolsVerif.Proofs.BookAccT
+import DfolsVerif.Gen.BookSites
+import DfolsVerif.Spec.BookSites
 
 namespace Dfols
 namespace C03
@@ -64,6 +66,12 @@ theorem C03_label {hasH : Bool} {evs : List Ev} {s : St}
             · simp [init] at h0
             · exact ⟨a, ve, c, h0⟩
       all_goals simp at hs2
+
+/-- **layer G**: the 40-odd book-keeping call sites of controller.py / solver.py (change_point,
+    add_new_point, add_new_sample, save_point, get_final_results, shift_base with their argument
+    expressions; the hard-restart merge of `solve`; every `return` of `solve_main`) are textually the ones
+    the acceptor `BookAcc` mirrors — regenerated from /repo's AST on every run. -/
+theorem booksites_eq : Gen.bookSites = Spec.bookSites := by decide
 
 /-- the same for every intermediate state: whatever `solve` currently holds as its best candidate
     consists of evaluations really made at the point it is labelled with. -/
